@@ -246,4 +246,4 @@ theorem C16_pool_tracking (cs : List CompStatus) (x : Nat) :
 theorem C16_pool_publishes (p : Pool) (c : CompStatus) :
     (Pool.updateStatus p 0 c).2 = some (Pool.updateStatus p 0 c).1.currentStatus := by
   obtain ⟨id, v⟩ := c
-  cases v <;> rfl
+  cases v <;> first | rfl | (unfold Pool.updateStatus; c16_unfold_helpers <;> (try simp) <;> c16_leaf)
